@@ -868,6 +868,71 @@ func (t *tr) skelRun(files []*ast.File) {
 	t.skel = append(t.skel, "run: "+strings.Join(order, " < "))
 }
 
+// skelCloses lists every close(<channel>) of the package with the declared
+// function it occurs in: a channel with several senders (auditCh: prompter
+// and spotlights; collCh: prompter and audition) must never be closed, the
+// others only by their single sender.
+func (t *tr) skelCloses(files []*ast.File) {
+	var all []string
+	for _, f := range files {
+		for _, d := range f.Decls {
+			fd, ok := d.(*ast.FuncDecl)
+			if !ok || fd.Body == nil {
+				continue
+			}
+			ast.Inspect(fd.Body, func(n ast.Node) bool {
+				if c, ok := n.(*ast.CallExpr); ok && t.isBuiltin(c) == "close" && len(c.Args) == 1 {
+					all = append(all, recvName(fd)+":"+identName(c.Args[0]))
+				}
+				return true
+			})
+		}
+	}
+	sort.Strings(all)
+	t.skel = append(t.skel, "closes: "+strings.Join(all, "; "))
+}
+
+// skelSenders lists, per channel field of the theater, the declared functions
+// that send on it.
+func (t *tr) skelSenders(files []*ast.File) {
+	by := map[string]map[string]bool{}
+	for _, f := range files {
+		for _, d := range f.Decls {
+			fd, ok := d.(*ast.FuncDecl)
+			if !ok || fd.Body == nil {
+				continue
+			}
+			ast.Inspect(fd.Body, func(n ast.Node) bool {
+				if ss, ok := n.(*ast.SendStmt); ok {
+					ch := identName(ss.Chan)
+					if ch == "auditCh" || ch == "collCh" || ch == "termCh" {
+						if by[ch] == nil {
+							by[ch] = map[string]bool{}
+						}
+						by[ch][recvName(fd)] = true
+					}
+				}
+				return true
+			})
+		}
+	}
+	var chans []string
+	for ch := range by {
+		chans = append(chans, ch)
+	}
+	sort.Strings(chans)
+	var parts []string
+	for _, ch := range chans {
+		var fs []string
+		for f := range by[ch] {
+			fs = append(fs, f)
+		}
+		sort.Strings(fs)
+		parts = append(parts, ch+" <- "+strings.Join(fs, ", "))
+	}
+	t.skel = append(t.skel, "senders: "+strings.Join(parts, "; "))
+}
+
 // the spotlight consumer is called from the reader loop, then from the drain
 // goroutine started after the loop ended and joined through readerDone
 func (t *tr) skelConsumer(files []*ast.File) {
@@ -1001,6 +1066,8 @@ func main() {
 	t.skelRunConduct(files)
 	t.skelRun(files)
 	t.skelConsumer(files)
+	t.skelCloses(files)
+	t.skelSenders(files)
 
 	sort.SliceStable(t.sites, func(i, j int) bool {
 		a, b := t.sites[i], t.sites[j]
